@@ -146,11 +146,46 @@ def build_app(spec, calls_file, delays):
         hint = get_cls(types[0])
     else:
         hint = Union[tuple(get_cls(t) for t in types)]
+    kind = {"loader": LOADER, "generic": GENERIC}[spec["kind"]]
+    deco = define_app(app_type=kind, skip_not_completed=bool(spec["skip"]))
+    style = spec.get("style", "func")
+    base = main
+    if style in ("func_args", "func_kwargs"):
+        # a function-based app with a mutable constructor argument that the function mutates on every call: the
+        # machinery hands each call its own copy, so no call may see what an earlier call did to it
+        def main(x, opts):  # noqa: F811
+            opts.pop("keep")
+            opts["seen"].append(key_of(x))
+            if len(opts["seen"]) != 1:
+                raise RuntimeError("state of an earlier call is visible: " + repr(opts["seen"]))
+            return base(x)
+
+    if style == "class":
+        # a class-based app that keeps a scratch state on the instance (the result does not depend on it)
+        def _init(self, opts=None):
+            self.opts = opts if opts is not None else {}
+            self.n = 0
+            self.seen = []
+
+        def _main(self, x):
+            self.n += 1
+            self.seen.append(key_of(x))
+            self.opts["last"] = key_of(x)
+            return base(x)
+
+        _main.__annotations__ = {"x": hint, "return": SerialisableType}
+        klass = type(spec["name"], (), {"__init__": _init, "main": _main})
+        klass.__module__ = __name__
+        cls = deco(klass)
+        return cls(opts={"k": [1, 2]})
     main.__name__ = spec["name"]
     main.__qualname__ = spec["name"]
     main.__annotations__ = {"x": hint, "return": SerialisableType}
-    kind = {"loader": LOADER, "generic": GENERIC}[spec["kind"]]
-    cls = define_app(app_type=kind, skip_not_completed=bool(spec["skip"]))(main)
+    cls = deco(main)
+    if style == "func_args":
+        return cls({"keep": 1, "seen": []})
+    if style == "func_kwargs":
+        return cls(opts={"keep": 1, "seen": []})
     return cls()
 
 
@@ -267,8 +302,10 @@ def run_phase(tmp, ph, pi, store="dir"):
     if ph.get("as_store"):
         inputs = INPUT_STORE[0]
     # the composed app on every input alone (fresh instances; invocations not counted)
-    single_app = build_chain(ph["specs"], os.path.join(tmp, f"single_{pi}.txt"), {})
-    singles = [canon_value(single_app(make_input(i))) for i in ph["inputs"]]
+    # the composed app on every input alone: a FRESH app per input (invocations not counted), so that a record of
+    # apply_to that depends on which other inputs went through the same instance shows up as a difference
+    singles = [canon_value(build_chain(ph["specs"], os.path.join(tmp, f"single_{pi}.txt"), {})(make_input(i)))
+               for i in ph["inputs"]]
 
     # list(app.as_completed(inputs)) of the composed app without writer (same completion order as the apply_to below)
     asc_app = build_chain(ph["specs"], os.path.join(tmp, f"asc_{pi}.txt"), {})
